@@ -9,6 +9,10 @@ for path in sys.argv[1:]:
         p = line.split(None, 3)
         if len(p) >= 3 and re.match(r"C\d\d", p[1] or ""):
             res.setdefault(p[0], {})[p[1]] = (p[2], p[3].strip() if len(p) > 3 else "")
+try:
+    THOROUGH = json.load(open(os.path.join(V, "seeded", "thorough_notes.json")))
+except Exception:
+    THOROUGH = {}
 ids = ["C%02d" % i for i in range(1, 21)]
 rows = []
 for d in sorted(glob.glob(os.path.join(V, "seeded", "*-*"))):
@@ -40,16 +44,20 @@ for d in sorted(glob.glob(os.path.join(V, "seeded", "*-*"))):
         "inconclusive": incon,
         "first_message_of_owning_check": r.get(prop, ("", ""))[1],
     }
+    if name in THOROUGH:
+        meta["caught_only_in_thorough_tier"] = THOROUGH[name]
     json.dump(meta, open(os.path.join(d, "meta.json"), "w"), indent=1)
     rows.append((name, prop, r))
 with open(os.path.join(V, "seeded", "MATRIX.md"), "w") as f:
-    f.write("# Seeded changes x checks (quick tier; V = VIOLATION reported, . = held, ? = inconclusive, blank = not run)\n\n")
+    f.write("# Seeded changes x checks (quick tier; V = VIOLATION reported, . = held, ? = inconclusive, T = held in the quick tier, reported by the thorough tier, blank = not run)\n\n")
     f.write("| change | " + " | ".join(i[1:] for i in ids) + " | summary |\n|---|" + "---|" * (len(ids) + 1) + "\n")
     for name, prop, r in rows:
         cells = []
         for i in ids:
             v = r.get(i, ("", ""))[0]
             c = {"VIOLATION": "V", "OK": ".", "INCONCLUSIVE": "?"}.get(v, " ")
+            if i == prop and name in THOROUGH and c == ".":
+                c = "T"
             if i == prop:
                 c = "**" + c + "**"
             cells.append(c)
